@@ -183,6 +183,8 @@ E16I = _o('oracle: GeneratePeopleDict / Consume on generated commit lists', 'e16
           'totality, same e-mail => same developer, descriptions = names then e-mails', ['c16'])
 E16M = _o('oracle: MergeReversedDictsIdentities component structure', 'e16', 4000, 200000,
           'pairs of well-formed identity lists: every identity indexed, equal final index iff connected, union descriptions', ['c16merge'])
+E16MM = _o('oracle: GeneratePeopleDict / Consume with a .mailmap in the last commit', 'e16', 4000, 200000,
+           'commit lists as above, 1-4 mailmap lines of the four git forms mixing proper and commit names / e-mails', ['c16mm'])
 E16S = _o('oracle: MergeReversedDictsIdentities on lists with a token shared inside one list (known finding stream D9)', 'e16', 2000, 100000,
           'as above, one token of an entry repeated in another entry of the same list; failures accepted only in the class token-shared-within-list', ['c16mergeS'])
 E19 = _o('oracle: TicksSinceStart through Consume (floor, clamp, registry)', 'e16', 4000, 200000,
@@ -255,7 +257,7 @@ PROPS = {
     'C13': dict(corr=[RN, RNH, RNHR]),
     'C14': dict(corr=[RUN, E14]),
     'C15': dict(corr=[TS]),
-    'C16': dict(corr=[IDG, IDM, E16I, E16M, E16S]),
+    'C16': dict(corr=[IDG, IDM, E16I, E16MM, E16M, E16S]),
     'C17': dict(corr=[CD, CDC, E01]),
     'C18': dict(corr=[DEV, IDM, CM, K18C, K18B, E18]),
     'C19': dict(corr=[TK, TKR, E19, PFORK]),
